@@ -440,8 +440,10 @@ Delay(st, nm, d, rest) ==
   LET r == DelayCore(st, nm, d, rest) IN
   IF r.out = "ok" THEN Ok([r.st EXCEPT !.lg = Append(@, "delay")]) ELSE r
 
-(* Sequence.align: the per-channel ends are read once, then the channels are *)
-(* delayed one after the other (each may raise after earlier ones changed)   *)
+(* Sequence.align: the common end is read once (with fall time if at_rest),  *)
+(* then the channels are delayed one after the other up to it, counting from *)
+(* the end of their last instruction (each may raise after earlier ones      *)
+(* changed)                                                                  *)
 Align(st, nms, rest) ==
   IF Measured(st) THEN Err(st, "RE")
   ELSE IF \E k \in 1..Len(nms) : ChIdx(st, nms[k]) = 0 THEN Err(st, "VE")
@@ -454,7 +456,7 @@ Align(st, nms, rest) ==
       RECURSIVE loop(_, _)
       loop(k, cur) ==
         IF k > Len(nms) THEN Ok(cur)
-        ELSE LET delta == tf - End(nms[k]) IN
+        ELSE LET delta == tf - ChanDur(st.ch[ChIdx(st, nms[k])]) IN
              IF delta > 0
              THEN LET a == Adjust(CfgOf(st, ChIdx(st, nms[k])), delta) IN
                   IF a.out # "ok" THEN Err(cur, a.out)
